@@ -1,6 +1,11 @@
 import HdVerif.Model.Json
 import HdVerif.Model.FrameAccess
-open Lean HdVerif HdVerif.Drv HdVerif.Bits HdVerif.Gen HdVerif.FrameAccess
+import HdVerif.Model.Offsets
+open Lean HdVerif HdVerif.Drv HdVerif.Bits HdVerif.Gen HdVerif.FrameAccess HdVerif.Offsets
+
+def getFrags (j : Json) (k : String) : Except String (List (List Nat)) := do
+  let a ← getArr j k
+  a.toList.mapM (fun x => do let l ← x.getArr?; l.toList.mapM (·.getNat?))
 
 def handlers : List (String × Handler) := [
   ("stdFrameIndex", fun j => do
@@ -25,6 +30,12 @@ def handlers : List (String × Handler) := [
   ("lazyFrameBytes", fun j => do
     let r := lazyFrameBytes (← getNatList j "pd") (← getInt j "rows") (← getInt j "cols") (← getInt j "samples")
       (← getInt j "bits") (← getInt j "n") (← getStr j "pi") (← getInt j "k") (← getBool j "as_index")
+    pure (exceptToJson natsToJson r)),
+  ("getBot", fun j => do
+    let r := getBot (← getNatList j "stored") (← getFrags j "frags") (← getNat j "n")
+    pure (exceptToJson natsToJson r)),
+  ("readFrameRawEnc", fun j => do
+    let r := readFrameRaw (← getFrags j "frags") (← getNatList j "table") (← getNat j "i")
     pure (exceptToJson natsToJson r)),
   ("lazyRaw", fun j => do
     let r := lazyRaw (← getNatList j "pd") (← getInt j "rows") (← getInt j "cols") (← getInt j "samples")
